@@ -254,6 +254,10 @@ def ev(e, env):
         if names and all(n in types_ or isinstance(env.get(n), type) for n in names):
             return isinstance(ev(e.args[0], env), tuple(env[n] if isinstance(env.get(n), type) else types_[n] for n in names))
         raise ModelError(f'minieval: isinstance with {ast.unparse(t)}')
+    if isinstance(e, ast.Call) and isinstance(e.func, ast.Name) and e.func.id == 'map' and len(e.args) == 2 and not e.keywords and isinstance(e.args[0], ast.Name) \
+            and isinstance(env.get(e.args[0].id), LocalFn):
+        lf = env[e.args[0].id]
+        return [call_function(lf.fdef, [x], lf.env) for x in ev(e.args[1], env)]
     if isinstance(e, ast.Call) and isinstance(e.func, ast.Name) and e.func.id == 'getattr' and len(e.args) in (2, 3) and not e.keywords:
         o, a = ev(e.args[0], env), ev(e.args[1], env)
         if isinstance(o, NS) and isinstance(a, str):
